@@ -347,3 +347,46 @@ Proof.
 Qed.
 
 End Pending.
+
+(* ------------------------------------------------------------------ more run-level facts *)
+Section More.
+Context {W : Type}.
+Implicit Types s : st W.
+
+Lemma stoch_loop_gone (tb : table W) pf fuel t ev s t' ev' s' i :
+  gone_st i s -> stoch_loop tb pf fuel t ev s = (t', ev', s') -> gone_st i s'.
+Proof.
+  intros G H. rewrite <- stoch_loopL_fst in H.
+  destruct (stoch_loopL tb pf fuel t ev s) as [[[a b] c] l] eqn:E. cbn in H. injection H as -> -> ->.
+  exact (proj1 (gone_kmoves i _ _ _ (stoch_loopL_kmoves _ _ _ _ _ _ _ _ _ _ E) G)).
+Qed.
+
+Lemma sync_loop_gone (tb : table W) pf fuel t ev k s t' ev' k' s' i :
+  gone_st i s -> sync_loop tb pf fuel t ev k s = (t', ev', k', s') -> gone_st i s'.
+Proof.
+  intros G H. rewrite <- sync_loopL_fst in H.
+  destruct (sync_loopL tb pf fuel t ev k s) as [[[[a b] c] d] l] eqn:E. cbn in H. injection H as -> -> -> ->.
+  exact (proj1 (gone_kmoves i _ _ _ (sync_loopL_kmoves _ _ _ _ _ _ _ _ _ _ _ _ E) G)).
+Qed.
+
+Lemma stoch_run_dinv (tb : table W) pf fuel rs ls ds x :
+  In x (queue (r_final (stoch_run tb pf fuel rs ls ds))) -> e_live x = false ->
+  In (unposted x) (r_out (stoch_run tb pf fuel rs ls ds)).
+Proof.
+  intros Hx Hl. rewrite (proj1 (stoch_fields tb pf fuel rs ls ds)). apply -> in_rev.
+  refine (dinv_kmoves _ _ _ (stoch_run_kmoves tb pf fuel rs ls ds) _ _ x Hx Hl); cbn.
+  - split; constructor.
+  - intros ? [].
+Qed.
+
+Lemma sync_run_dinv (tb : table W) pf fuel rs ds x :
+  In x (queue (r_final (sync_run tb pf fuel rs ds))) -> e_live x = false ->
+  In (unposted x) (r_out (sync_run tb pf fuel rs ds)).
+Proof.
+  intros Hx Hl. rewrite (proj1 (sync_fields tb pf fuel rs ds)). apply -> in_rev.
+  refine (dinv_kmoves _ _ _ (sync_run_kmoves tb pf fuel rs ds) _ _ x Hx Hl); cbn.
+  - split; constructor.
+  - intros ? [].
+Qed.
+
+End More.
